@@ -139,7 +139,7 @@ def drive(task):
                 yield from pda_events(pdasrc.build(src), 0, src, budget, limit=None, words=["a"])
     elif k == "rnd_pda":
         for i in range(task["count"]):
-            src = {"kind": "pda_rnd", "seed": task["seed"] * 100000 + i}
+            src = {"kind": "pda_rnd", "seed": task["seed"] * 100000 + i, "multichar": 1}
             yield from pda_events(pdasrc.build(src), task["n"], src, budget)
     elif k == "cfg":
         rng = random.Random(task["seed"])
